@@ -1,7 +1,7 @@
 (* C04 — dag_to_cpdag returns the essential graph of the DAG's Markov equivalence class. *)
 From Coq Require Import List Arith.
 From PG Require Import Base.ListSet Graph.MGraph C04.Dag C04.Model C04.Spec C04.Proofs C04.Structure C04.Classify
-  C04.EssRefl C04.Bounded_4.
+  C04.EssRefl C04.Bounded_4 C04.Cover.
 Import ListNotations.
 
 (* unbounded: the labelling loop never runs out of fuel, for any graph and any node order *)
@@ -24,6 +24,11 @@ Theorem cpdag_essential_bounded_4 : forall n es ord, n <= 4 -> In es (dags n) ->
   exists c r, cpdag_model d ord = Some (seq 0 n, c, r) /\ forall a b, In (a, b) c <-> essential d a b.
 Proof. exact cpdag_essential_bounded_4_proof. Qed.
 Print Assumptions cpdag_essential_bounded_4.
+
+(* the enumeration behind the bounded theorem is complete: every DAG on nodes 0..n-1 has the edge set of a member *)
+Theorem dags_enumeration_complete : forall n d, is_dag d -> V d = seq 0 n -> exists es, In es (dags n) /\ set_eq (D d) es.
+Proof. exact dags_cover. Qed.
+Print Assumptions dags_enumeration_complete.
 
 (* unbounded: the brute-force oracle used by the harness decides the definition *)
 Theorem essential_oracle_correct : forall d, is_dag d -> forall a b, essential_dec d a b = true <-> essential d a b.
